@@ -99,6 +99,8 @@ fn fam_empty_rows(r: &mut Rng) -> LinearModel {
 pub fn family(r: &mut Rng, i: usize) -> (LinearModel, &'static str) {
     if i % 16 == 15 { return (crate::props::c04::variable_free(r), "variable-free"); }
     if i % 5 == 4 { return (gen_lp::near_tied(r), "near-tied-large-coefficients"); }
+    if i % 10 == 3 { return (gen_lp::permuted_domain(r, i % 20 == 3), "permuted-domain-order"); }
+    if i % 20 == 7 { if let Some((lm, _)) = gen_lp::from_text(r) { return (lm, "text-pipeline-define-order"); } }
     match i % 8 {
         0 => (fam_free_face(r), "free-face"),
         1 => (fam_both_infeasible(r), "primal-dual-infeasible"),
@@ -133,6 +135,8 @@ pub fn cases_for(lm: &LinearModel, fam: &str, variants: &gen_lp::Variants, out: 
             SolverKind::Auto => gen_lp::mlp(&raw_milp).map(|r| format!("auto-wrap {} {}", lms, r)),
             SolverKind::MicroLp => gen_lp::mlp(&call(SolverKind::RawMicroLp)).map(|r| format!("microlp-wrap {} {}", lms, r)),
             SolverKind::Clarabel => gen_lp::clarabel_req(lm, &lms, variants, if hung.get() { Duration::from_millis(400) } else { TIMEOUT }),
+            // the whole entry point of the tableau simplex is a model function (`SlowSimplex.solveReal`)
+            SolverKind::Simplex => Some(format!("simplex-wrap {} {} {}", sx::num(crate::gen_std::measured_tolerance()), if opts.simplex_limit == 0 { 10000 } else { opts.simplex_limit }, lms)),
             _ => None,
         }.unwrap_or_default();
         if matches!(o, Outcome::Hang) { c.req.clear(); }
@@ -179,6 +183,14 @@ pub fn seeded() -> Vec<(LinearModel, &'static str)> {
     m.add_constraint(vec![1.0, 0.0], Comparison::GreaterOrEqual, 2.0);
     m.set_objective(vec![0.0, 1.0], OptimizationType::Min);
     v.push((m, "seeded-primal-dual-infeasible"));
+    // clarabel gives up with Other("Numerical error") on an infeasible model (C16-clarabel-numerical-error-infeasible):
+    // NO verdict from the interior-point path, hence not a wrong one for C05 — kept here so that path stays exercised
+    let mut m = LinearModel::new();
+    m.add_variable("x", VariableType::NonNegativeReal(0.0, 6.0));
+    m.add_constraint(vec![-2.0], Comparison::Equal, -6.0);
+    m.add_constraint(vec![-1.0], Comparison::Equal, -4.0);
+    m.set_objective(vec![0.0], OptimizationType::Max);
+    v.push((m, "seeded-clarabel-numerical-error"));
     // clarabel: `Solved` with a ~1e25 point on a primal-and-dual infeasible model (thorough tier)
     let mut m = LinearModel::new();
     m.add_variable("v0", free()); m.add_variable("v1", free()); m.add_variable("v2", free());
